@@ -425,6 +425,14 @@ class FakeSocket:
                 from .simproc import Killed
 
                 proc.die_after_sends = None
+                if getattr(proc, "die_goodbye", False):
+                    # the process is interrupted between request and reply and leaves in good
+                    # order: its client's close request (header with an empty body, see the
+                    # wire format in stepup/core/rpc.py) follows the pending request
+                    import struct
+
+                    self._end.send(struct.pack(">QQ", 2**40, 0))
+                    proc.world.count("fault.client_goodbye_with_call_pending")
                 proc.killed = 9
                 proc.world.count("fault.client_death_after_send")
                 proc.world.log_event("fault", "client_death", proc.label)
